@@ -1401,7 +1401,7 @@ impl<'cmd> Parser<'cmd> {
         debug!("Parser::remove_overrides: id={:?}", arg.id);
         for override_id in &arg.overrides {
             debug!("Parser::remove_overrides:iter:{override_id:?}: removing");
-            matcher.remove(override_id);
+            self.remove_overridden(override_id, matcher);
         }
 
         // Override anything that can override us
@@ -1415,7 +1415,26 @@ impl<'cmd> Parser<'cmd> {
         }
         for overrider_id in transitive {
             debug!("Parser::remove_overrides:iter:{overrider_id:?}: removing");
-            matcher.remove(overrider_id);
+            self.remove_overridden(overrider_id, matcher);
+        }
+    }
+
+    /// Remove an overridden arg; a group left without any matched member goes with it, so that it
+    /// no longer counts as present during validation
+    fn remove_overridden(&self, id: &Id, matcher: &mut ArgMatcher) {
+        if !matcher.remove(id) {
+            return;
+        }
+        for group in self.cmd.groups_for_arg(id) {
+            let still_matched = self
+                .cmd
+                .unroll_args_in_group(&group)
+                .iter()
+                .any(|member| matcher.contains(member));
+            if !still_matched {
+                debug!("Parser::remove_overridden: group {group:?} has no matched member left");
+                matcher.remove(&group);
+            }
         }
     }
 
